@@ -32,15 +32,15 @@ RULE_MODULES: Dict[str, str] = {
 PROPERTY_RULES: Dict[str, List[str]] = {
     "C01": ["R7/R9", "R8", "R1/O1", "R1/O2", "R1/O4", "R1/O5", "R7/key", "R2/INFLIGHT", "R2/sink", "R2/anc", "R2/own", "R2/until", "R2/extra", "R3/P1", "R3/P4", "R3/P5", "R5", "R6",
             "R20/table/input_delays", "R20/delay", "R20/writers", "R19/interval", "R19/anc-closure"],
-    "C02": ["R22/readers", "R22/defaults", "R22/type-readers", "R7/R9", "R8", "R2/INFLIGHT", "R2/anc", "R2/own", "R3/P", "R4", "R5", "R11/schedule", "R11/sched-value", "R11/time-arg", "R11/last-step", "R20/table/triggers", "R20/delay", "R20/writers",
+    "C02": ["R20/ports", "R22/readers", "R22/defaults", "R22/type-readers", "R7/R9", "R8", "R2/INFLIGHT", "R2/anc", "R2/own", "R3/P", "R4", "R5", "R11/schedule", "R11/sched-value", "R11/time-arg", "R11/last-step", "R20/table/triggers", "R20/delay", "R20/writers",
             "R19/anc-closure"],
-    "C03": ["R21", "R22/readers", "R8/lift", "R17", "R5/store", "R5/update_min", "R20/delay", "R20/table", "R20/writers", "R11/out", "R4/outtime", "R1/O1", "R1/O4", "R2/INFLIGHT", "R2/anc", "R2/own"],
-    "C04": ["R18", "R2/INFLIGHT", "R2/anc", "R2/own", "R21", "R8", "R5", "R6", "R17", "R10/R18", "R1/O1", "R1/O2", "R1/O3", "R1/O4", "R20/table", "R20/delay", "R11/raw", "R4/dedup", "R4/wake", "R19/anc-closure", "R19/closure"],
+    "C03": ["R20/ports", "R20/connect", "R21", "R22/readers", "R8/lift", "R17", "R5/store", "R5/update_min", "R20/delay", "R20/table", "R20/writers", "R11/out", "R4/outtime", "R1/O1", "R1/O4", "R2/INFLIGHT", "R2/anc", "R2/own"],
+    "C04": ["R20/ports", "R18", "R2/INFLIGHT", "R2/anc", "R2/own", "R21", "R8", "R5", "R6", "R17", "R10/R18", "R1/O1", "R1/O2", "R1/O3", "R1/O4", "R20/table", "R20/delay", "R11/raw", "R4/dedup", "R4/wake", "R19/anc-closure", "R19/closure"],
     "C05": ["R3/INIT", "R4/outtime", "R14/shared", "R8", "R1/O4", "R1/O5", "R2", "R4/wake", "R4/settle", "R4/wait", "R5", "R6", "R7/site", "R19/anc-closure", "R19/zero", "R19/closure", "R19/gate", "R19/seed"],
     "C06": ["R5", "R20/connect", "R6", "R7/site", "R7/R9", "R19", "R20/delay"],
     "C07": ["R2/INFLIGHT", "R2/sink", "R2/anc", "R2/own", "R2/until", "R2/extra", "R3/P3", "R5/store", "R5/update_min", "R19/anc-closure", "R4/notify", "R20/delay"],
     "C08": ["R6", "R20/table/input_delays", "R5/store", "R19/zero", "R19/anc-closure", "R19/closure", "R7/key", "R7/R9", "R5/update_min"],
-    "C09": ["R7/R9", "R2/INFLIGHT", "R2/anc", "R4/notify", "R4/wake", "R8/lift", "R3/R12", "R4/outtime", "R19/interval", "R20/delay", "R20/table/triggers", "R1/O3", "R1/O1", "R5/store", "R14/waiter", "R14/groups"],
+    "C09": ["R20/ports", "R7/R9", "R2/INFLIGHT", "R2/anc", "R4/notify", "R4/wake", "R8/lift", "R3/R12", "R4/outtime", "R19/interval", "R20/delay", "R20/table/triggers", "R1/O3", "R1/O1", "R5/store", "R14/waiter", "R14/groups"],
     "C10": ["R1/O3", "R3/P1", "R1/O4", "R2/INFLIGHT", "R2/sink", "R2/own", "R20/table/successors", "R20/delay", "R20/async", "R20/writers", "R10/R18"],
     "C11": ["R7/R9", "R20", "R19/interval", "R19/group_path", "R19/group-scope", "R22/readers", "R22/tuple", "R22/defaults", "R22/forbidden", "R22/triple"],
     "C12": ["R22", "R23/feature"],
@@ -115,4 +115,5 @@ def rules_for(prop: str) -> List[str]:
 
 
 def selected(prop: str, oid: str) -> bool:
-    return any(oid == sel or oid.startswith(sel) for sel in PROPERTY_RULES.get(prop, []))
+    # "R2" selects every obligation of rule R2 (and not those of R20 ... R24); "R1/O5" selects R1/O5a, R1/O5b, ...
+    return any(oid == sel or (oid.startswith(sel) if "/" in sel else oid.split("/")[0] == sel) for sel in PROPERTY_RULES.get(prop, []))
